@@ -13,24 +13,56 @@ def key_fn(case, obs, verdict):
             fn, tn = int(f[1]), int(f[2])
             kind = "line-%s" % ("flat" if fn == tn else "increasing" if fn < tn else "decreasing")
         what = "finish" if why.startswith("finish") else "left" if why.startswith("Left") else \
-            "post-exhaustion" if why.startswith("exhausted") else "tokens-vs-integral" if why.startswith("tokens") else why[:40]
+            "post-exhaustion" if why.startswith("exhausted") else "tokens-vs-integral" if (why.startswith("tokens") or why.startswith("operation")) else why[:40]
         return "%s:%s-duration:%s" % (kind, dk, what)
     return "%s:%s" % (kind, why[:40])
 
 
+RULE = ("non-trivial: the implementation released at least 2 tokens and the profile is not a flat rate over a whole "
+        "number of seconds (steps always count); distinct = distinct case lines")
+BRIDGES = ["Gen/Sched_bridge.v"]
+TRUSTED = [
+    "translator harness/cmd/translate sched (go/ast over NewConst, constDoAt, NewLine, lineDoAt, NewOnce, NewStep -> arithmetic AST of "
+    "Model/SchedExpr.v; local definitions inlined, integer vs float division decided from the declared parameter types)",
+    "extraction: ExtrOcamlBasic only; OCaml driver ocaml/C01/main.ml + ocaml/common/conv.ml (zarith for decimal I/O); the driver applies the "
+    "float64 tolerance of DESIGN.md section 3 (1 ns + D*2^-40 on instants, relative 2^-40 on the integral before rounding down)",
+    "correspondence harness harness/cmd/hC01 (real schedule.NewConstConf/NewLineConf/NewStepConf/NewOnceConf, Start, Next, Left)",
+    "modelled, not verified: IEEE-754 rounding of the float64 evaluation (exact rationals in the model; rates enter as the configured "
+    "decimal/rational value); int64 overflow of token counts beyond 2^63; do_at.go / step.go loop / composite sequencing are hand-modelled "
+    "(tied by the correspondence run, the step loop header also by the translator)",
+    "C01_closed_form only: Coq Reals axioms ClassicalDedekindReals.sig_forall_dec, sig_not_dec, FunctionalExtensionality.functional_extensionality_dep",
+]
+ASSUMPTIONS = [
+    "float64 evaluation of the schedule formulas stays within 1 ns + D*2^-40 of the exact value (measured on every run, not proved)",
+    "sync/atomic counter of doAtSchedule is linearizable (token k is handed out once; concurrency is property C02)",
+]
+
+
 def run(ctx):
-    common.standard(
-        ctx, harness="hC01", extracted="C01_model", driver_dir="C01",
-        rule=("non-trivial: the implementation released at least 2 tokens and the profile is not a flat rate over a whole "
-              "number of seconds (steps always count); distinct = distinct case lines"),
-        key_fn=key_fn,
-        translators=[("sched", "SchedGen.v")],
-        bridge_files=["Gen/Sched_bridge.v"],
-        trusted=[
-            "translator harness/cmd/translate sched (go/ast over NewConst, constDoAt, NewLine, lineDoAt, NewOnce, NewStep -> arithmetic AST of Model/SchedExpr.v; "
-            "local definitions inlined, integer vs float division decided from the declared parameter types)",
-            "extraction: ExtrOcamlBasic only; OCaml driver ocaml/C01/main.ml + ocaml/common/conv.ml (zarith for decimal I/O)",
-            "correspondence harness harness/cmd/hC01 (real schedule.NewConstConf/NewLineConf/NewStepConf/NewOnceConf, Start, Next, Left)",
-        ],
-        assumptions=[],
-    )
+    """Like common.standard, except that a source the translator cannot re-read does not stop the
+    correspondence run: the executable model does not depend on Gen/, so a concrete failing input is
+    still searched for (the broken tie is reported next to it)."""
+    cov = {"rule": RULE, "evaluations": 0, "distinct_nontrivial": 0}
+    ok_t = common.translate(ctx, "sched", "SchedGen.v")
+    model_ok = ctx.coq(["Extract/Extract%s.vo" % ctx.prop], what="model+extraction")
+    if model_ok and ok_t:
+        ctx.properties(extra_files=BRIDGES)
+    elif model_ok:
+        # Gen/SchedGen.v is stale: nothing about the current source can be discharged
+        import os
+        files = [os.path.join(common.COQ, "Properties", "C01.v")] + [os.path.join(common.COQ, f) for f in BRIDGES]
+        ctx.statements = [(k, n, os.path.relpath(f, common.COQ)) for f in files for (k, n) in common.count_statements(f)]
+        ctx.obligations = len(ctx.statements)
+        ctx.discharged = 0
+    h = ctx.build_harness("hC01")
+    m = ctx.ocaml_model("mC01", "C01_model", "C01") if model_ok else None
+    if h and m:
+        st = common.correspondence(ctx, h, m, key_fn=key_fn)
+        if st:
+            cov.update(st)
+        if ctx.brokens and not ctx.violations and ctx.quick() and not ctx.replay:
+            st2 = common.correspondence(ctx, h, m, key_fn=key_fn, tier="thorough", label="escalated")
+            if st2:
+                cov["escalated_evaluations"] = st2["evaluations"]
+    cov["trusted_base_extra"] = TRUSTED
+    ctx.finish(cov, assumptions=ASSUMPTIONS)
